@@ -200,6 +200,44 @@ class QueueOrder(Litmus):
         return None if rt.observations.get("out") == (0, 1, 2) else f"{rt.observations.get('out')}"
 
 
+class LateRegistration(Litmus):
+    """Post a request, then register the waiter; a poller that wakes on a timer answers it. Losing the
+    answer needs the poster to be descheduled across a timer period: one `stall` deviation."""
+    name = "late-registration"
+    expect = {0: (False, 1), 1: (True, None)}
+    idle_window = 6.0
+    horizon = 40.0
+
+    def driver(self, rt):
+        T = shims.Thread
+        tm = shims.make_time()
+        q = shims.Queue()
+        box = Box(); box.waiters = {}
+
+        def poster():
+            q.put("req")
+            rt.point("line", "posted-not-yet-registered")
+            ev = shims.Event()
+            box.waiters["req"] = ev
+            ev.wait()
+            rt.observations["out"] = "answered"
+
+        def poller():
+            while True:
+                tm.sleep(0.25)
+                if not q.empty():
+                    r = q.get()
+                    ev = box.waiters.get(r)
+                    if ev is not None:
+                        ev.set()
+        p = T(target=poller, name="poller")
+        p.start()
+        w = T(target=poster, name="poster")
+        w.start()
+        w.join()
+        rt.stop()
+
+
 class Spinner(Litmus):
     """A thread that spins on a flag without ever blocking must not starve the thread that sets it."""
     name = "spinner"
@@ -231,11 +269,13 @@ class Spinner(Litmus):
         return None if rt.observations.get("out") == "released" else "spinner never released"
 
 
-ALL = [LostUpdate, LockedUpdate, LockOrder, LostWakeup, TimedWaitIdle, TimeoutFires, QueueOrder, Spinner]
+ALL = [LostUpdate, LockedUpdate, LockOrder, LostWakeup, TimedWaitIdle, TimeoutFires, QueueOrder, Spinner,
+       LateRegistration]
 
 # exact execution counts of the search (regression guard); filled from a known-good run
-EXECUTIONS = {("lost-update", 1): 8, ("locked-update", 1): 12, ("locked-update", 2): 52,
-              ("ab-ba-deadlock", 1): 14, ("queue-order", 1): 8}
+EXECUTIONS = {("lost-update", 1): 13, ("locked-update", 1): 21, ("locked-update", 2): 161,
+              ("ab-ba-deadlock", 1): 25, ("lost-wakeup", 1): 13, ("queue-order", 1): 17,
+              ("late-registration", 1): 13}
 
 
 def run_litmus(cls, verbose=False):
